@@ -36,6 +36,7 @@ func init() {
 		// names stay unique: a create goes ahead only when the lookup under the lock found nothing
 		ruleT12(c, "C04.S17")
 		ruleSelfRename(c, "C04.S18")
+		ruleDoneMeansWritten(c, "C04.S19")
 	}
 }
 
